@@ -101,7 +101,7 @@ def c16(run):
     run.cov["rule"] = ("every row (blockTime 0..3, window, trusting period, SyncFromHeight, time pattern regular/slow/halted/burst, empty or running store, "
                        "new head) is one Start()+Head() of the real Syncer over a real Store with explicit header times (tick = 1 h virtual); observed: panic, "
                        "wrap-around (requested heights), error, Tail/Head, gap-freeness, pruned heights; non-trivial = tail moved or failure; distinct = distinct row")
-    run.assumptions += ["SyncFromHash rows are not part of the table (hash lookups go through the same renewTail/moveTail path as SyncFromHeight)",
+    run.assumptions += ["SyncFromHash is exercised as a replay-only variant of the SyncFromHeight rows whose header exists (same prediction)",
                         "integer arithmetic of the model is bounded (TLC); the uint64/int64 extremes are represented by the wrap symbol"]
 
     def sig(c, f):
